@@ -41,14 +41,16 @@ func (m *multiFlag) String() string     { return strings.Join(*m, ";") }
 func (m *multiFlag) Set(s string) error { *m = append(*m, s); return nil }
 
 type OblResult struct {
-	Tag          string            `json:"tag"`
-	Discharged   int               `json:"discharged"`
-	Ground       int               `json:"ground"`
-	Violated     int               `json:"violated"`
-	Inconclusive int               `json:"inconclusive"`
-	Cex          []Cex             `json:"cex,omitempty"`
-	Notes        []string          `json:"notes,omitempty"`
-	Witness      map[string]string `json:"witness,omitempty"`
+	Tag          string `json:"tag"`
+	Discharged   int    `json:"discharged"`
+	Ground       int    `json:"ground"`
+	Violated     int    `json:"violated"`
+	Inconclusive int    `json:"inconclusive"`
+	// occurrences not sent to the solver because this tag already has three counterexamples in this run
+	NotDecided int               `json:"not_decided_after_violation,omitempty"`
+	Cex        []Cex             `json:"cex,omitempty"`
+	Notes      []string          `json:"notes,omitempty"`
+	Witness    map[string]string `json:"witness,omitempty"`
 }
 type Cex struct {
 	Path   string   `json:"path"`
